@@ -166,14 +166,56 @@ class Mgr:
         return ('SUPPORT', u.node)
 
 
+class NodeLedger:
+    """Library reference counts per node (node = truth table value), relative
+    to the state before the call: one integer term per possible node value."""
+
+    def __init__(self):
+        self.cnt = [z3.IntVal(0)] * (2 ** W)
+        self.calls = 0
+
+    def _upd(self, node, d):
+        bv = node.bv if isinstance(node, V) else node
+        self.calls += 1
+        self.cnt = [z3.If(bv == k, c + d, c) for k, c in enumerate(self.cnt)]
+
+    def inc(self, *a):
+        self._upd(a[-1], 1)
+
+    def dec(self, *a):
+        self._upd(a[-1], -1)
+
+    def balanced_except(self, bv):
+        """every count is back to its initial value, except one reference held on `bv`"""
+        return z3.And([c == z3.If(bv == k, 1, 0) for k, c in enumerate(self.cnt)])
+
+
+LEDGER = None
+
+
 class Node:
-    def __init__(self, node, mgr=None):
+    def __init__(self, node, mgr=None, owned=False):
         mgr = mgr if mgr is not None else Mgr()
         self.node = node
         self.manager = mgr.manager
         self.bdd = mgr
         self.zdd = mgr
         self._ref = 1
+        # a handle made by `wrap` takes one library reference and gives it back on disposal
+        self._led = LEDGER if owned else None
+        if self._led is not None:
+            self._led.inc(node)
+
+    def __del__(self):
+        led = getattr(self, '_led', None)
+        if led is not None and self.node is not None:
+            self._led = None
+            led.dec(self.node)
+
+
+class OwnedNode(Node):
+    def __init__(self, node, mgr=None):
+        Node.__init__(self, node, mgr, owned=True)
 
 
 class Mgr:
@@ -240,7 +282,10 @@ def lib_namespace():
         _forall_root=b(lambda m, f, c: quant_by_support(f, c, True)),
         _exist_root=b(lambda m, f, c: quant_by_support(f, c, False)),
         _dict_to_zdd=lambda qvars, zdd: Node(qvars[1], zdd),
-        wrap=lambda self, r: Node(r, self), _utils=U, _dd_abc=A, _ty=typing, _abc=__import__('collections.abc').abc,
+        wrap=lambda self, r: Node(r, self, owned=True),
+        Cudd_Ref=lambda n: LEDGER.inc(n), Cudd_RecursiveDeref=lambda m, n: LEDGER.dec(n),
+        Cudd_RecursiveDerefZdd=lambda m, n: LEDGER.dec(n), Cudd_Deref=lambda n: LEDGER.dec(n),
+        _utils=U, _dd_abc=A, _ty=typing, _abc=__import__('collections.abc').abc,
         Function=Node, DdRef=object, _Yes=bool, _VariableName=str, BDD=object, ZDD=object)
 
     class SY:
@@ -255,6 +300,8 @@ def lib_namespace():
         sylvan_forall = staticmethod(b(lambda f, c: quant_by_support(f, c, True)))
         sylvan_exists = staticmethod(b(lambda f, c: quant_by_support(f, c, False)))
         sylvan_invalid = Invalid()
+        sylvan_ref = staticmethod(lambda n: (LEDGER.inc(n), n)[1])
+        sylvan_deref = staticmethod(lambda n: (LEDGER.dec(n), n)[1])
         BDD = object
     ns['sy'] = SY
 
@@ -263,6 +310,8 @@ def lib_namespace():
         bdd_and = staticmethod(b(lambda a, c: a & c))
         bdd_or = staticmethod(b(lambda a, c: a | c))
         bdd_xor = staticmethod(b(lambda a, c: a ^ c))
+        bdd_addref = staticmethod(lambda n: (LEDGER.inc(n), n)[1])
+        bdd_delref = staticmethod(lambda n: (LEDGER.dec(n), n)[1])
     ns['buddy'] = BU
     return ns
 
@@ -335,6 +384,8 @@ class Harness:
             m = re.search(r'_OperatorSymbol: _ty.TypeAlias = _ty.Literal\[(.*?)\]', full, re.S)
             ns['_OPERATOR_SYMBOLS'] = set(ast.literal_eval('[' + m.group(1) + ']'))
             ns['_OperatorSymbol'] = str
+            # BuDDy: `Function(r)` itself takes the library reference (bdd_addref in __cinit__)
+            ns['Function'] = OwnedNode
         exec(self.src, ns)
         self.f = ns['apply']
         self.ns = ns
@@ -355,20 +406,29 @@ class Harness:
                         v=model.eval(v, model_completion=True).as_long(),
                         w=model.eval(w, model_completion=True).as_long())
 
+        global LEDGER
+        LEDGER = led = NodeLedger()
         exc = got = None
         try:
             if self.which == 'buddy' and ar == 3:
                 raise ValueError('buddy.apply has no ternary form')
             got = self.f(me, op, *ops)
         except (ValueError, AssertionError) as e:
-            exc = e
+            exc = e.with_traceback(None)
         if exc is not None:
             if self.which == 'buddy':
                 return dict(outcome='not_in_subset:' + op, goals=[], witness=None)
             res = base.discharge([Goal(f'{self.which}_accepts_{fam}', z3.BoolVal(False))], [], extract)
             return dict(outcome='raised', goals=res)
         gv = got.bv if isinstance(got, V) else got.node.bv
-        res = base.discharge([Goal(f'{self.which}_apply_same_connective_and_roles', gv == want)], [], extract)
+        goals = [Goal(f'{self.which}_apply_same_connective_and_roles', gv == want)]
+        if isinstance(got, Node):
+            # all temporaries are gone (the frame of `apply` has been released): the only library
+            # reference this call still holds is the one of the handle it returned
+            goals.append(Goal(f'{self.which}_apply_releases_every_temporary_reference',
+                              z3.And(z3.BoolVal(got._led is led), led.balanced_except(gv))))
+        res = base.discharge(goals, [], extract)
+        got._led = None
         return dict(outcome='compared', goals=res, witness=base.witness(extract),
                     expect=dict(outcome='returned'))
 
@@ -389,16 +449,20 @@ def replay(case):
         m = re.search(r'_OperatorSymbol: _ty.TypeAlias = _ty.Literal\[(.*?)\]', full, re.S)
         ns['_OPERATOR_SYMBOLS'] = set(ast.literal_eval('[' + m.group(1) + ']'))
         ns['_OperatorSymbol'] = str
+        ns['Function'] = OwnedNode
     exec(src, ns)
     fam = FAMILY[op]
     ar = ARITY[fam]
     vals = [z3.BitVecVal(case[k], W) for k in 'uvw']
     me = Mgr()
     engine.CTX = engine.Ctx()
+    global LEDGER
+    LEDGER = led = NodeLedger()
     want = ref_apply(B, op, vals[0], vals[1] if ar > 1 else None, vals[2] if ar > 2 else None)
     try:
         got = ns['apply'](me, op, *[Node(V(x), me) for x in vals[:ar]])
     except Exception as e:
+        e = e.with_traceback(None)
         if which == 'buddy':
             return dict(violates=False, detail='outside BuDDy subset', observed=dict(outcome='returned'))
         return dict(violates=True, key=f'pyx/{which}/rejects-documented-operator',
@@ -416,4 +480,16 @@ def replay(case):
         return dict(violates=True, key=f'pyx/{which}/{role}',
                     detail=f'{which}.pyx apply({op!r}, u={case["u"]:#06b}, v={case["v"]:#06b}) gives {g1:#06b}, '
                            f'dd.bdd.BDD.apply gives {w1:#06b}', observed=dict(outcome='returned'))
+    if isinstance(got, Node):
+        bal = z3.And(z3.BoolVal(got._led is led), led.balanced_except(gv))
+        got._led = None
+        if ctx.check(z3.Not(bal)) == z3.sat:
+            mdl = ctx.solver.model()
+            off = {k: mdl.eval(cv, model_completion=True).as_long() for k, cv in enumerate(led.cnt)}
+            g1 = mdl.eval(gv, model_completion=True).as_long()
+            off = {f'{k:#06b}': v for k, v in off.items() if v != (1 if k == g1 else 0)}
+            return dict(violates=True, key=f'pyx/{which}/apply-temporary-reference',
+                        detail=f'{which}.pyx apply({op!r}, u={case["u"]:#06b}, v={case["v"]:#06b}): after the call '
+                               f'(result {g1:#06b}, one reference held by the returned handle) the library counts '
+                               f'are off by {off}', observed=dict(outcome='returned'))
     return dict(violates=False, detail='ok', observed=dict(outcome='returned'))
